@@ -198,3 +198,29 @@ theorem C15_disabled_then_events_dict (U : Universe) (td : Desc) (hwf : WellForm
 example : ∃ w, loadDict exU exTd = .ok w ∧ (setEnabled exU w true).log = owedLog exU exTd ∧
     (owedLog exU exTd).length = 5 :=
   ⟨_, rfl, by decide, by decide⟩
+
+/-- A load that fails part-way (a transformer or a constructor raises) hands the exception to the
+caller of `handle()` and leaves nothing cached in the handle; the next `handle()` therefore loads
+again from scratch and — the cause being repaired, i.e. in a universe `U'` where the description
+transforms and is well formed — returns exactly the world `loadFile U' d` builds (for which
+`C15_exact_content` and `C15_disabled_then_events` hold) and caches it; calls after that return
+this same world without loading. -/
+theorem C15_failed_load_not_cached (U U' : Universe) (d td : Desc) (e : Exc)
+    (hfail : loadFile U d = .error e) (htd : transformDesc U' d = .ok td)
+    (hwf : WellFormed U' [clsOnUpdate, clsCoroutine] td) :
+    callHandle none (loadFile U d) = (none, .error e) ∧
+    ∃ w, loadFile U' d = .ok w ∧
+      callHandle (callHandle none (loadFile U d)).1 (loadFile U' d) = (some w, .ok w) ∧
+      ∀ load, callHandle (some w) load = (some w, .ok w) := by
+  have h1 : callHandle none (loadFile U d) = (none, .error e) := by simp [callHandle, hfail]
+  refine ⟨h1, loadedFile U' td, loadFile_wf U' d td htd hwf, ?_, fun _ => rfl⟩
+  rw [h1, loadFile_wf U' d td htd hwf]
+  rfl
+
+/-- non-vacuity: with the handle `a/r` missing from the tree the load of `exDesc` fails with
+`KeyError`; with a raising constructor of the component labelled 1 it fails with `CtorError`; the
+repaired universe `exU` satisfies the other hypotheses -/
+example : loadFile { exU with getItem := fun _ => .error "KeyError" } exDesc = .error "KeyError" ∧
+    loadFile { exU with ctorRaises := fun l => l = 1 } exDesc = .error "CtorError" ∧
+    transformDesc exU exDesc = .ok exTd ∧ WellFormed exU [clsOnUpdate, clsCoroutine] exTd :=
+  ⟨rfl, rfl, rfl, by decide⟩
